@@ -112,6 +112,22 @@ class KNode:
                                 f.write(hand[op[1] % len(hand)])
                         self.loads += 1
                         k.load_config(p, replace=bool(op[2]))
+                elif kind == "load_bad":
+                    # fault: a replacing load of a file that turns out to be unreadable part-way (not valid UTF-8 after a
+                    # readable head).  The load fails - that is expected and not judged - and the instance lives on.
+                    p = os.path.join(self.sb, "bad_%d" % op[1])
+                    head = b""
+                    src = self.slot(op[1])
+                    if os.path.exists(src):
+                        with builtins.open(src, "rb") as f:
+                            head = f.read()
+                    with builtins.open(p, "wb") as f:
+                        f.write(head + b"CONFIG_BROKEN=\xff\xfe\n")
+                    self.loads += 1
+                    try:
+                        k.load_config(p, replace=True)
+                    except Exception:  # noqa: B902
+                        self.failed_loads = getattr(self, "failed_loads", 0) + 1
                 elif kind == "restart":
                     k.write_config(self.slot(op[1]), save_old=False)
                     self.boot()
@@ -274,7 +290,7 @@ class PickModel:
                     if i is not None and val.startswith("y"):
                         newpick[i] = name
             self.pick = newpick
-        elif kind in ("load", "load_hand", "restart"):
+        elif kind in ("load", "load_hand", "restart", "load_bad"):
             self.all_unknown()
 
 
@@ -299,7 +315,7 @@ class UserModel(PickModel):
                 self.vals[op[1]] = UNKNOWN
         elif kind in ("unset", "reset") and op[1] in self.vals:
             self.vals[op[1]] = None
-        elif kind in ("reset_menu", "load", "load_hand", "restart"):
+        elif kind in ("reset_menu", "load", "load_hand", "restart", "load_bad"):
             for n in self.vals:
                 self.vals[n] = UNKNOWN
 
@@ -331,13 +347,13 @@ def gen_history(r, prog, n_ops, weights=None, sane=0.8, hand_n=0, slots=3, olds=
     hot = mentioned_names(prog) or names
     nch = sum(1 for it in kgen.walk(prog["items"]) if it["k"] == "choice")
     w = {"set": 40, "unset": 8, "cunset": 3, "reset": 8, "reset_menu": 3, "read": 18, "save": 6, "save_min": 0, "load": 6,
-         "load_hand": 3 if hand_n else 0, "restart": 4, "edge": 0, "dance": 2}
+         "load_hand": 3 if hand_n else 0, "restart": 4, "edge": 0, "dance": 2, "load_bad": 0, "stale_merge": 0}
     member_bias = 0.25
     if weights:
         weights = dict(weights)
         member_bias = weights.pop("member_bias", member_bias)
         w.update(weights)
-    edges = kgen.dep_edges(prog) if (w.get("edge") or w.get("dance")) else []
+    edges = kgen.dep_edges(prog) if (w.get("edge") or w.get("dance") or w.get("stale_merge")) else []
     if not edges:
         w["edge"] = 0
     # members whose visibility hangs on an option outside their choice, with their siblings (for "dance")
@@ -447,6 +463,21 @@ def gen_history(r, prog, n_ops, weights=None, sane=0.8, hand_n=0, slots=3, olds=
                 ops.append(["load", r.choice(sorted(saved)), int(r.random() < 0.6)])
         elif kind == "load_hand":
             ops.append(["load_hand", r.randrange(hand_n), int(r.random() < 0.5)])
+        elif kind == "load_bad":
+            ops.append(["load_bad", r.choice(sorted(saved)) if saved else 0])
+        elif kind == "stale_merge":
+            # save; change something another option's default depends on; merge the saved file back: its default-marked
+            # entry for the dependent is stale now (policy sdkconfig pins it for the session)
+            if edges:
+                a, b, en = r.choice(edges)
+                s = r.randrange(slots)
+                saved.add(s)
+                ops.append(["save", s, 0])
+                ta = tab[a]["type"]
+                ops.append(["set", a, r.choice(kgen.SANE[ta])])
+                ops.append(["load", s, 0])
+                if r.random() < 0.5:
+                    ops.append(["read", [b], 15])
         elif kind == "restart":
             s = r.randrange(slots)
             saved.add(s)
